@@ -220,11 +220,18 @@ def axi_check(kind, case, rec):
         rec.close("axisymmetric forces in another length unit = L^2 forces", float(np.abs(rl / L**2 - rvec).max()) / max(float(np.abs(rvec).max()), 1e-9), 1e-9, {"L": L})
         rec.label("length-unit=%g" % L)
 
+        # radial coordinate of the quadrature points from the geometry nodes of the cells (the bubble unknown of a MINI element
+        # carries no geometry) - not the radius the field computed for itself
+        cells_ = np.asarray(mesh.cells)
+        geo = np.arange(cells_.shape[1] - (1 if cell == "triangle-mini" else 0))
+        Hq = np.array([np.asarray(region.element.function(q_), float)[geo] for q_ in region.quadrature.points])
+        Rq = np.einsum("qa,ca->qc", Hq, X[cells_[:, geo], 1])
+
         def energy(uv):
             fa[0].values[...] = uv.reshape(-1, 2)
             Fq = np.asarray(fa.extract()[0])
             W = np.asarray(um.function([Fq, None])[0])
-            return float((2 * np.pi * fa[0].radius * region.dV * W).sum())
+            return float((2 * np.pi * Rq * region.dV * W).sum())
 
         g = np.zeros_like(rvec)
         h = 1e-6
